@@ -317,7 +317,7 @@ def race(order: List[int], stale: bool) -> bool:
     pre: all(0 <= o <= 1 for o in order)
     post: __return__
     """
-    from crosshair.tracers import NoTracing
+    from engine.harness_api import untraced as NoTracing
     order = [pick(o, 0, 1) for o in order]
     stale = bool(pick(int(stale), 0, 1))
     with NoTracing():
@@ -330,7 +330,7 @@ def race_twin(order: List[int], stale: bool) -> bool:
     pre: all(0 <= o <= 1 for o in order)
     post: __return__
     """
-    from crosshair.tracers import NoTracing
+    from engine.harness_api import untraced as NoTracing
     order = [pick(o, 0, 1) for o in order]
     with NoTracing():
         a, b = 2, 3
